@@ -438,17 +438,6 @@ pub struct StreamModel {
     pub max_depth: u8,
 }
 
-const BAD_CLASSES: [&str; 9] = [
-    "panic",
-    "push-error",
-    "ciphertext-differs",
-    "state-differs",
-    "message-differs",
-    "verdict-differs",
-    "reject-mutates-state",
-    "accepted-out-of-position",
-    "rejected-genuine",
-];
 
 impl Model for StreamModel {
     type State = Sys;
